@@ -457,5 +457,5 @@ pub fn run(a: &Args, rep: &mut Report) {
             load(rep);
         }
     }
-    gates(rep, &mut r, a.budget(60_000, 8_000_000));
+    gates(rep, &mut r, a.budget(200_000, 8_000_000));
 }
